@@ -298,7 +298,7 @@ class Flow:
                 return [(st, self.modconst[node.id])]
             if node.id in ("True", "False", "None"):
                 return [(st, {"True": True, "False": False, "None": None}[node.id])]
-            if self.template and node.id not in _FREE_OK and node.id not in self.free_ok:
+            if self.template and node.id not in _FREE_OK and node.id not in self.free_ok and not node.id.startswith(("parse_", "CHILD_")):
                 st = st.fork()
                 st.note("R5", f"name {node.id} read before assignment")
             elif not self.template and node.id in st.env.get("__locals__", ()):
@@ -873,6 +873,10 @@ class Flow:
                 return [(st, Opq("find"))]
             return [(st, Opq(ast.unparse(node)[:40]))]
         if isinstance(f, Opq):
+            if self.template and (f.src.startswith("parse_") or f.src.startswith("CHILD_")) and f.src != "parse_trivia" and len(args) >= 2:
+                # a rule function reached through a variable (for rule in (parse_WHITESPACE, parse_COMMENT): rule(state, xs))
+                k = int(f.src[6:]) if f.src.startswith("CHILD_") and f.src[6:].isdigit() else 0
+                return self.child(st, ChildRef(f.src, k), args[1], args[0])
             if any(isinstance(a, PathRef) and a.path == "state" for a in args):
                 raise self.unsupported(f"call {ast.unparse(node.func)} receives the parser state")
             return [(st, Opq(ast.unparse(node)[:40]))]
@@ -1500,8 +1504,8 @@ class Flow:
             seq = self.iterable(x, itv)
             if isinstance(seq, LRef):
                 raise self.unsupported("iteration over a pair list")
-            if isinstance(seq, tuple) and not _has_abs(seq):
-                seq = AList(seq)
+            if isinstance(seq, tuple) and not (seq and isinstance(seq[0], str) and seq[0] in ("len", "find", "atomic", "ctx", "slice", "tag", "input_slice", "match_end", "len_input", "suppress")):
+                seq = AList(seq)  # a tuple display is enumerable whatever its elements are (names of rule functions, say)
             if isinstance(seq, Opq):
                 for n in (0, 1, 2):
                     y0 = x.fork()
